@@ -105,6 +105,8 @@ def run(ctx):
   ctx.rule('R19.2', 'every constant Content-Security-Policy in the server uses only allowed source expressions (no bare *, no bare scheme, no foreign host; CDNs only in script-src-elem); content_response always sets a policy')
   ctx.rule('R19.3', 'content_response is the only body that moves an inscription body into a response; for every call of content_response and every get_inscription_by_id(ID) that can supply its inscription, '
            'a ¬Settings::is_hidden(ID\') guard with ID\' of the same origin as ID lies on every path to the call')
+  ctx.rule('R19.6', 'content_inner (the body-serving handler behind the proxy layer, which replaces every local 404 by the upstream answer): every not-found exit is dominated by the '
+           '¬is_hidden test of the requested id, so a hidden id is answered with the placeholder, never with 404')
   ctx.rule('R19.4', 'content addressed by sat index is immutable only for non-negative indices: content_inner(cache <- inscription_index >= 0); content_response emits `immutable` only under cache')
   ctx.rule('R19.5', 'content_response: Content-Encoding passed through only if acceptable; decompressed only if server_config.decompress ∧ encoding == BROTLI; otherwise NotAcceptable; content type falls back to application/octet-stream')
 
@@ -237,6 +239,21 @@ def run(ctx):
       n_defs += 1
       ido = _origin_keys(b, g_.args[1])
       ok = False
+      # idiom: `opt_id.is_some_and(|id| settings.is_hidden(id))` — a hidden test on the payload of the Option the id was taken from
+      for h in gs:
+        if call_polarity(h, r'Option::is_some_and$') is not False:
+          continue
+        for x in [x for x in h.slice().calls if x.is_('std::option::Option::is_some_and')]:
+          tests_payload = False
+          for cdef in b.slice_of([x.args[1]], through_calls=False).closures:
+            cbody = F.bodies.get(cdef)
+            if cbody is None:
+              continue
+            for hc_ in cbody.calls_to(HIDDEN):
+              if any(o.kind == 'param' and o.local == 2 for o in deep_origins(cbody, hc_.args[1])):
+                tests_payload = True
+          if tests_payload and (_origin_keys(b, x.args[0]) & ido) and (b.dominates(h.bb, g_.bb) or not reaches_avoiding(b, g_.bb, c.bb, {h.bb})):
+            ok = True
       for h in hid:
         hc = [x for x in h.slice().calls if x.is_(HIDDEN)]
         for x in hc:
@@ -262,6 +279,15 @@ def run(ctx):
       d = describe_cond(sb, c.args[5])
       ok = isinstance(d, tuple) and d[0] == 'cmp' and d[1] == 'Ge' and d[3] == ('const', 0) and 'inscription_index' in str(names_of(d[2]) | _n(sb, c.args[5]))
       ctx.ob('R19.4', sb.n, 'content_inner(cache <- inscription_index >= 0)', ok, f'cache flag is {d}', where(sb, c.line))
+  n_ci = 0
+  for fb in F.family('ord::subcommand::server::r::content_inner'):
+    for c in fb.calls_to(CR):
+      n_ci += 1
+      os_ = deep_origins(fb, c.args[3])
+      okc = bool(os_) and all(o.kind in ('upvar', 'param') and o.name == 'cache' for o in os_)
+      ctx.ob('R19.4', fb.n, 'content_inner forwards its own cache flag to content_response', okc,
+             f'the cache argument is {os_}: content addressed relative to the newest inscription on a sat would be marked immutable', where(fb, c.line))
+  ctx.floor('R19.4', 'content_response calls in content_inner', n_ci, 1)
   cb = F.body('ord::subcommand::server::r::content::{closure#0}')
   if cb is not None:
     for c in cb.calls_to('ord::subcommand::server::r::content_inner'):
@@ -282,6 +308,32 @@ def run(ctx):
     for bi, blk in ns:
       gs = find_cmp([g for g in all_guards(sa, bi) if sa.dominates(g.bb, bi)], 'Lt', lambda n: 'inscription_index' in n or True, lambda n: ('const', 0) in n, True)
       ctx.ob('R19.4', sa.n, 'sat_at_index: no-store under inscription_index < 0', len(gs) == 1, '', where(sa, sa.line))
+
+  # ---------------- R19.6
+  n_nf = 0
+  for fb in F.family('ord::subcommand::server::r::content_inner'):
+    nf = []
+    for bi, blk in enumerate(fb.blocks):
+      if bi not in fb.reachable_from(0) or blk['cleanup']:
+        continue
+      for s_ in blk['s']:
+        if s_.get('rv', {}).get('k') == 'agg' and s_['rv'].get('variant') == 'NotFound' and norm(s_['rv'].get('adt') or '').endswith('ServerError'):
+          nf.append((bi, s_.get('l'), 'ServerError::NotFound'))
+      t = blk['t']
+    for c in fb.calls:
+      if c.is_('re:OptionExt.*::ok_or_not_found$') and fb.reaches(0, c.bb):
+        nf.append((c.bb, c.line, 'ok_or_not_found'))
+    for bi, line, what in nf:
+      n_nf += 1
+      gs6 = [g for g in all_guards(fb, bi) if fb.dominates(g.bb, bi) and call_polarity(g, r'Settings::is_hidden$') is False]
+      okh = False
+      for g in gs6:
+        for x in [x for x in g.slice().calls if x.is_(HIDDEN)]:
+          if any(k for k in _origin_keys(fb, x.args[1]) if not k.startswith('call:')):
+            okh = True
+      ctx.ob('R19.6', fb.n, f'{what} exit is preceded by the hidden test of the requested id', okh,
+             'a hidden inscription that is missing locally answers 404, which the proxy layer replaces by the upstream body', where(fb, line))
+  ctx.floor('R19.6', 'not-found exits in content_inner', n_nf, 3)
 
   # ---------------- R19.5
   if crb is not None:
